@@ -579,22 +579,21 @@ Section CoverRatio34.
   (** ---- filling a bin with the smallest small items ---- *)
   Definition room (C D f : Z) : Z := if f <? C then 6 * (C - f) + 2 * D else 0.
 
-  Lemma fill_w C D : 0 < D -> forall fuel (cur : bin A) small cur1 small',
+  Lemma fill_w C : forall fuel (cur : bin A) small cur1 small',
     fill_small valueof true fuel C cur small = (cur1, small') ->
     Forall (smp C) small -> (length small <= fuel)%nat ->
     Forall (smp C) small' /\ (C <= fst cur1 \/ small' = []) /\
     exists used, snd cur1 = snd cur ++ used /\ fst cur1 = fst cur + vsum used /\
-      wsum4 C D used <= room C D (fst cur).
+      forall D, 0 < D -> wsum4 C D used <= room C D (fst cur).
   Proof.
-    intros HD.
     assert (Base : forall (cur : bin A) small cur1 small',
       (cur, small) = (cur1, small') -> Forall (smp C) small -> (C <= fst cur \/ small = []) ->
       Forall (smp C) small' /\ (C <= fst cur1 \/ small' = []) /\
       exists used, snd cur1 = snd cur ++ used /\ fst cur1 = fst cur + vsum used /\
-        wsum4 C D used <= room C D (fst cur)).
+        forall D, 0 < D -> wsum4 C D used <= room C D (fst cur)).
     { intros cur small cur1 small' E Hs Hor. inversion E; subst cur1 small'.
       split; [exact Hs|]. split; [exact Hor|]. exists []. rewrite app_nil_r.
-      split; [reflexivity|]. split; [cbn; lia|]. rewrite wsum4_nil. unfold room.
+      split; [reflexivity|]. split; [cbn; lia|]. intros D HD. rewrite wsum4_nil. unfold room.
       destruct (fst cur <? C) eqn:Ef; lia. }
     induction fuel as [|f IH]; intros cur small cur1 small' E Hs Hlen; cbn [fill_small] in E.
     - apply (Base cur small); [exact E|exact Hs|]. right. destruct small; [reflexivity|cbn in Hlen; lia].
@@ -607,7 +606,8 @@ Section CoverRatio34.
         split; [exact H1|]. split; [exact H2|]. exists (y :: used).
         cbn [add_to_bin fst snd] in H3, H4, H5.
         split; [rewrite H3, <- app_assoc; reflexivity|].
-        split; [rewrite H4, vsum4_cons; lia|]. rewrite wsum4_cons.
+        split; [rewrite H4, vsum4_cons; lia|]. intros D HD. specialize (H5 D HD).
+        rewrite wsum4_cons.
         destruct (Wz_le C D (valueof y)) as [W1 W2]; [lia|lia|].
         unfold room in H5 |- *. rewrite EC.
         destruct (fst cur + valueof y <? C) eqn:E2; lia.
@@ -737,4 +737,78 @@ Section CoverRatio34.
       assert (Hyin : In y rest) by (destruct rest; [destruct Hin|right; exact Hin]).
       rewrite Forall_forall in Hle2. specialize (Hle2 y Hyin). cbv beta in Hle2.
       specialize (Hramp ltac:(lia)). lia.
+  Qed.
+
+  (** ---- the whole run from a state of the main loop ---- *)
+  Definition good (C : Z) (bs : bins A) (big medium : list A) (st' : cstate (A:=A)) : Prop :=
+    exists new D, fst st' = bs ++ new /\ Dok C big medium D /\
+      3 * (wsum4 C D (contents new) + wsum4 C D (snd (snd st')))
+        <= 24 * D * Z.of_nat (length new) + 60 * D + Bud C D medium.
+
+  (** the current bin at the head of the loop: not full, and light for every admissible D *)
+  Definition resid (C : Z) (big medium : list A) (cur : bin A) : Prop :=
+    0 <= fst cur < C /\ forall D, Dok C big medium D -> 3 * wsum4 C D (snd cur) <= 30 * D.
+
+  Lemma resid_empty C big medium : 0 < C -> resid C big medium empty_bin.
+  Proof.
+    intros HC. unfold resid, empty_bin. cbn [fst snd]. split; [lia|].
+    intros D (HD & _). rewrite wsum4_nil. lia.
+  Qed.
+
+  Lemma good_cons C bs b big' medium' big medium st' :
+    incl big' big -> incl (tl medium') (tl medium) ->
+    (forall D, Dok C big' medium' D ->
+       3 * wsum4 C D (snd b) + Bud C D medium' <= 24 * D + Bud C D medium) ->
+    good C (bs ++ [b]) big' medium' st' -> good C bs big medium st'.
+  Proof.
+    intros Hb Hm Hw (new & D & H1 & H2 & H3). exists (b :: new), D.
+    split; [rewrite H1, <- app_assoc; reflexivity|].
+    split; [eapply Dok_incl; eassumption|].
+    change (contents (b :: new)) with (snd b ++ contents new). rewrite wsum4_app.
+    cbn [length]. rewrite Nat2Z.inj_succ. specialize (Hw D H2). lia.
+  Qed.
+
+  Lemma good_stop C bs big medium cur : 0 < C -> resid C big medium cur ->
+    good C bs big medium (bs, cur).
+  Proof.
+    intros HC (Hf & Hw). exists [], C. cbn [fst snd]. rewrite app_nil_r.
+    split; [reflexivity|]. split; [apply Dok_C; exact HC|].
+    specialize (Hw C (Dok_C C big medium HC)). pose proof (Bud_bounds C C medium HC).
+    change (contents []) with (@nil A). rewrite wsum4_nil. cbn [length]. lia.
+  Qed.
+
+  (** the small items ran out: the big and the medium items go through the subroutine *)
+  Lemma good_B C bs big medium cur : 0 < C -> resid C big medium cur ->
+    desc big -> Forall (bigp C) big -> Forall (medp C) medium ->
+    good C bs big medium
+      (dec_sub valueof true C (dec_sub valueof true C (bs, cur) big) medium).
+  Proof.
+    intros HC (Hf & Hw) Hs Hb Hm.
+    destruct (Dfin_spec C big medium HC Hm) as (Hok & HDb & HDm).
+    set (D := Dfin C big medium) in *. pose proof Hok as (HD & HDC & _).
+    assert (H0 : acct C D bs (30 * D) P0 (bs, cur)).
+    { split; [exact Hf|]. exists []. cbn [fst snd]. rewrite app_nil_r. split; [reflexivity|].
+      change (contents []) with (@nil A). rewrite wsum4_nil. cbn [length]. unfold P0.
+      specialize (Hw D Hok). lia. }
+    pose proof (finish_B C D bs (30 * D) big medium (bs, cur) HC HD HDC Hs Hb Hm HDb HDm H0) as H.
+    destruct H as (_ & new & H1 & H2). exists new, D. split; [exact H1|]. split; [exact Hok|].
+    pose proof (Bud_bounds C D medium HD). unfold PY in H2.
+    destruct (3 * fst (snd (dec_sub valueof true C (dec_sub valueof true C (bs, cur) big) medium)) <? C);
+      [lia|].
+    destruct (3 * fst (snd (dec_sub valueof true C (dec_sub valueof true C (bs, cur) big) medium)) <? 2 * C);
+      lia.
+  Qed.
+
+  (** the big and medium items ran out: the small items go through the subroutine *)
+  Lemma good_A C bs small : 0 < C -> Forall (smp C) small ->
+    good C bs [] [] (dec_sub valueof true C (bs, empty_bin) small).
+  Proof.
+    intros HC Hs.
+    assert (H0 : acct C C bs 0 PZ (bs, @empty_bin A)).
+    { split; [cbn; lia|]. exists []. cbn [fst snd empty_bin]. rewrite app_nil_r.
+      split; [reflexivity|]. change (contents []) with (@nil A). rewrite wsum4_nil.
+      cbn [length]. unfold PZ. lia. }
+    pose proof (acct_small C bs 0 small (bs, empty_bin) HC Hs H0) as (Hf & new & H1 & H2).
+    exists new, C. split; [exact H1|]. split; [apply Dok_C; exact HC|].
+    pose proof (Bud_bounds C C [] HC). unfold PZ in H2. lia.
   Qed.
